@@ -15,6 +15,8 @@ mod de;
 mod derived;
 #[path = "c16_parts/lazy.rs"]
 mod lazy;
+#[path = "c16_parts/regbuf.rs"]
+mod regbuf;
 #[path = "c16_parts/shape.rs"]
 mod shape;
 #[path = "c16_parts/val.rs"]
@@ -394,10 +396,31 @@ const EMBED_KINDS: [&str; 18] = [
     "safe", "undef", "none", "dynobj", "plain", "seqval", "tuple", "iter", "bytes", "u128", "invalid", "longstr", "smallstr", "mapval",
     "oneshot", "lazyf", "cseq", "cmap",
 ];
-const EMBED_CTX: [&str; 16] = [
+const EMBED_CTX: [&str; 22] = [
     "field", "seq", "mapval", "mapkey", "some", "newvariant", "tupvariant", "structvariant", "tuple", "nested", "afterleak", "viavalue", "top",
-    "aftererror", "afterpanic", "nestedpanic",
+    "aftererror", "afterpanic", "nestedpanic", "flatstruct", "flattuple", "tagged", "flat5", "taggedmany", "buffer3",
 ];
+
+/// shapes for which serde buffers the variant's fields (its private ContentSerializer) before it
+/// forwards them: several value handles are alive at once
+#[derive(Serialize)]
+enum Payload {
+    Moved { from: Value, to: Value },
+    Pair(Value, Value),
+    Five { a: Value, b: Value, c: Value, d: Value, e: Value },
+    Many(Vec<Value>, Value),
+}
+#[derive(Serialize)]
+struct Event {
+    id: u32,
+    #[serde(flatten)]
+    payload: Payload,
+}
+#[derive(Serialize)]
+#[serde(tag = "kind")]
+enum Tagged {
+    Wrapped(Payload),
+}
 
 /// serialises an embedded value, then fails
 struct FailAfter(Value);
@@ -580,6 +603,53 @@ fn run_embed(ctx: &str, kind: &str, seed: u64) -> String {
                 same_value(&w, &idx(&out0, 4)?)?;
                 same_value(&pv, &idx(&out0, 5)?)?;
                 field_check(&Value::from(Serde(holder())))?;
+            }
+            "flatstruct" => {
+                let out = Value::from(Serde(Event { id: 1, payload: Payload::Moved { from: v.clone(), to: w.clone() } }));
+                let m = get(&out, "Moved")?;
+                same_value(&v, &get(&m, "from")?)?;
+                same_value(&w, &get(&m, "to")?)?;
+            }
+            "flattuple" => {
+                let out = Value::from(Serde(Event { id: 2, payload: Payload::Pair(pv.clone(), v.clone()) }));
+                let p = get(&out, "Pair")?;
+                same_value(&pv, &idx(&p, 0)?)?;
+                same_value(&v, &idx(&p, 1)?)?;
+            }
+            "tagged" => {
+                let out = Value::from(Serde(Tagged::Wrapped(Payload::Moved { from: v.clone(), to: pv.clone() })));
+                let m = get(&out, "Moved")?;
+                same_value(&v, &get(&m, "from")?)?;
+                same_value(&pv, &get(&m, "to")?)?;
+            }
+            "flat5" => {
+                let out = Value::from(Serde(Event {
+                    id: 5,
+                    payload: Payload::Five { a: v.clone(), b: w.clone(), c: pv.clone(), d: Value::UNDEFINED, e: Value::from_safe_string("<e>".into()) },
+                }));
+                let m = get(&out, "Five")?;
+                same_value(&v, &get(&m, "a")?)?;
+                same_value(&w, &get(&m, "b")?)?;
+                same_value(&pv, &get(&m, "c")?)?;
+                same_value(&Value::UNDEFINED, &get(&m, "d")?)?;
+                same_value(&Value::from_safe_string("<e>".into()), &get(&m, "e")?)?;
+            }
+            "taggedmany" => {
+                let out = Value::from(Serde(Tagged::Wrapped(Payload::Many(vec![v.clone(), pv.clone(), w.clone()], v.clone()))));
+                let m = get(&out, "Many")?;
+                let l = idx(&m, 0)?;
+                same_value(&v, &idx(&l, 0)?)?;
+                same_value(&pv, &idx(&l, 1)?)?;
+                same_value(&w, &idx(&l, 2)?)?;
+                same_value(&v, &idx(&m, 1)?)?;
+            }
+            "buffer3" => {
+                // the harness' own buffering adapter: three handles alive, resolved in reverse
+                let a = regbuf::Adapter { values: vec![v.clone(), w.clone(), pv.clone()], order: vec![2, 1, 0], handles: Default::default() };
+                let out = Value::from(Serde(&a));
+                same_value(&pv, &idx(&out, 0)?)?;
+                same_value(&w, &idx(&out, 1)?)?;
+                same_value(&v, &idx(&out, 2)?)?;
             }
             "aftererror" => {
                 let bad = Value::from(Serde(FailAfter(v.clone())));
@@ -841,6 +911,36 @@ fn run_json(env: &Environment, mode: &str, vd: &VD) -> String {
     format!("{}\t{}\t{}", hex(out.as_bytes()), alpha, sj)
 }
 
+// ------------------------------------------------------------------------------------ registry stream
+/// `n` values are buffered first (n live handles), then resolved in `order` (indices, may repeat / miss);
+/// run on a fresh thread so that the thread-local registry and handle counter start from scratch
+fn run_reg(n: usize, order: &[usize]) -> String {
+    let order = order.to_vec();
+    let h = std::thread::spawn(move || {
+        quiet_panics();
+        guarded(|| {
+            let values: Vec<Value> = (0..n).map(|i| Value::from_object(DynMapObj(i as u32 + 1))).collect();
+            let a = regbuf::Adapter { values, order, handles: Default::default() };
+            let out = Value::from(Serde(&a));
+            let handles: Vec<String> = a.handles.lock().unwrap().iter().map(|h| h.to_string()).collect();
+            let items: Vec<String> = match out.try_iter() {
+                Ok(it) => it
+                    .map(|x| match x.downcast_object_ref::<DynMapObj>() {
+                        Some(o) => o.0.to_string(),
+                        None => "_".to_string(),
+                    })
+                    .collect(),
+                Err(_) => vec!["?".into()],
+            };
+            format!("{}\t{}", handles.join(","), items.join(","))
+        })
+    });
+    match h.join() {
+        Ok(Ok(s)) => s,
+        _ => "panic\tpanic".into(),
+    }
+}
+
 // ------------------------------------------------------------------------------------ contract / lazy streams
 fn contains_plain(v: &VD) -> bool {
     match v {
@@ -1078,6 +1178,26 @@ fn main() {
                     writeln!(out, "derivedx {} {}\t{}", ty, s, derived::run_x(ty, s)).unwrap();
                 }
             }
+            // the handle registry with up to 40 live handles
+            for i in 0..(if thorough { 4000 } else { 400 }) {
+                let n = if i < 41 { i } else { 1 + r.below(40) as usize };
+                let order: Vec<usize> = match i % 5 {
+                    _ if n == 0 => vec![],
+                    0 => (0..n).collect(),
+                    1 => (0..n).rev().collect(),
+                    2 => {
+                        let mut v: Vec<usize> = (0..n).collect();
+                        for j in (1..n).rev() {
+                            v.swap(j, r.below(j as u64 + 1) as usize);
+                        }
+                        v
+                    }
+                    3 => (0..n).filter(|_| r.chance(2, 3)).collect(),
+                    _ => (0..r.below(2 * n as u64 + 1)).map(|_| r.below(n as u64) as usize).collect(),
+                };
+                let o: Vec<String> = order.iter().map(|x| x.to_string()).collect();
+                writeln!(out, "reg {} {}\t{}", n, if o.is_empty() { "-".to_string() } else { o.join(",") }, run_reg(n, &order)).unwrap();
+            }
             for ctx in EMBED_CTX {
                 for kind in EMBED_KINDS {
                     for _ in 0..(if thorough { 20 } else { 2 }) {
@@ -1222,6 +1342,10 @@ fn main() {
                 }
                 "derived" => derived::run(&args[3], args[4].parse().unwrap()),
                 "derivedx" => derived::run_x(&args[3], args[4].parse().unwrap()),
+                "reg" => {
+                    let order: Vec<usize> = if args[4] == "-" { vec![] } else { args[4].split(',').map(|x| x.parse().unwrap()).collect() };
+                    run_reg(args[3].parse().unwrap(), &order)
+                }
                 "embed" => run_embed(&args[3], &args[4], args[5].parse().unwrap()),
                 "json" => {
                     let vd = parse_vd(&mut Toks::new(&args[4..].join(" "))).unwrap();
